@@ -16,16 +16,95 @@ from spec.floats import *
 from spec.c14 import *
 
 
+# ---------------------------------------------------------------------------
+# order of RealFloat values on the ghost grid G = ghost('grid', 0): for any G below both exponents,
+# x OP y  <=>  Z_G(x) OP Z_G(y).  (RealFloat x RealFloat; float operands are inlined from source.)
+
+class RealFloat___gt__(Contract):
+    target = 'fpy2.number.number.reals:RealFloat.__gt__'
+    params = {'self': 'RealFloat', 'other': 'RealFloat'}
+    returns = 'bool'
+    properties = ['C14']
+    # path-queries the solvers leave undecided (rescaling both sides of an inequality by 2^(e0-G)) fall back
+    # to a bounded check (exponents / widths <= 10), reported as bounded
+    options = {'bounded_fallback': 10, 'bounded_ms': 30000}
+
+    def post(self, other, result):
+        G = ghost('grid', 0)
+        return {'grid': forks(self._exp <= other._exp, self._s, other._s, self._c == 0, other._c == 0)
+                and implies(G <= self._exp and G <= other._exp, result == (Zr(self, G) > Zr(other, G)))}
+
+    def raises(self, other):
+        return {}
+
+
+class RealFloat___lt__(Contract):
+    target = 'fpy2.number.number.reals:RealFloat.__lt__'
+    params = {'self': 'RealFloat', 'other': 'RealFloat'}
+    returns = 'bool'
+    properties = ['C14']
+    # path-queries the solvers leave undecided (rescaling both sides of an inequality by 2^(e0-G)) fall back
+    # to a bounded check (exponents / widths <= 10), reported as bounded
+    options = {'bounded_fallback': 10, 'bounded_ms': 30000}
+
+    def post(self, other, result):
+        G = ghost('grid', 0)
+        return {'grid': forks(self._exp <= other._exp, self._s, other._s, self._c == 0, other._c == 0)
+                and implies(G <= self._exp and G <= other._exp, result == (Zr(self, G) < Zr(other, G)))}
+
+    def raises(self, other):
+        return {}
+
+
+class RealFloat___ge__(Contract):
+    target = 'fpy2.number.number.reals:RealFloat.__ge__'
+    params = {'self': 'RealFloat', 'other': 'RealFloat'}
+    returns = 'bool'
+    properties = ['C14']
+    # path-queries the solvers leave undecided (rescaling both sides of an inequality by 2^(e0-G)) fall back
+    # to a bounded check (exponents / widths <= 10), reported as bounded
+    options = {'bounded_fallback': 10, 'bounded_ms': 30000}
+
+    def post(self, other, result):
+        G = ghost('grid', 0)
+        return {'grid': forks(self._exp <= other._exp, self._s, other._s, self._c == 0, other._c == 0)
+                and implies(G <= self._exp and G <= other._exp, result == (Zr(self, G) >= Zr(other, G)))}
+
+    def raises(self, other):
+        return {}
+
+
+class RealFloat___le__(Contract):
+    target = 'fpy2.number.number.reals:RealFloat.__le__'
+    params = {'self': 'RealFloat', 'other': 'RealFloat'}
+    returns = 'bool'
+    properties = ['C14']
+    # path-queries the solvers leave undecided (rescaling both sides of an inequality by 2^(e0-G)) fall back
+    # to a bounded check (exponents / widths <= 10), reported as bounded
+    options = {'bounded_fallback': 10, 'bounded_ms': 30000}
+
+    def post(self, other, result):
+        G = ghost('grid', 0)
+        return {'grid': forks(self._exp <= other._exp, self._s, other._s, self._c == 0, other._c == 0)
+                and implies(G <= self._exp and G <= other._exp, result == (Zr(self, G) <= Zr(other, G)))}
+
+    def raises(self, other):
+        return {}
+
+
 class C14_neg_sound(Lemma):
-    params = {'A': 'AbstractFormat', 'v': 'Float', 'g': 'int'}
+    params = {'A': 'AbstractFormat', 'v': 'Float'}
     overrides = {'A.prec': 'int | PosInf', 'A.exp': 'int | NegInf',
                  'A.pos_bound': 'RealFloat | PosInf', 'A.neg_bound': 'RealFloat | NegInf'}
     properties = ['C14']
+    options = {'light_first': True, 'theory_light': True}
 
-    def pre(A, v, g):
+    def pre(A, v):
+        g = GRID()
         return {'wf': wf(A), 'grid': grid_ok_fmt(A, g) and g <= v._real._exp, 'mem': mem(v, A, g)}
 
-    def post(A, v, g):
+    def post(A, v):
+        g = GRID()
         R = -A
         w = v_neg(v)
         out = wf_clauses(R, 'wf')
@@ -37,3 +116,193 @@ class C14_neg_sound(Lemma):
             'zero': implies(not w[0] and not w[1] and w[4] == 0, mem_fin(w[2], w[3], w[4], R, g)),
         })
         return out
+
+
+class C14_abs_sound(Lemma):
+    params = {'A': 'AbstractFormat', 'v': 'Float'}
+    overrides = {'A.prec': 'int | PosInf', 'A.exp': 'int | NegInf',
+                 'A.pos_bound': 'RealFloat | PosInf', 'A.neg_bound': 'RealFloat | NegInf'}
+    properties = ['C14']
+    options = {'light_first': True, 'theory_light': True}
+
+    def pre(A, v):
+        g = GRID()
+        # g <= 0: the grid must also lie below the exponent of the zero bound that __abs__ creates
+        return {'wf': wf(A), 'grid': grid_ok_fmt(A, g) and g <= v._real._exp and g <= 0, 'mem': mem(v, A, g)}
+
+    def post(A, v):
+        g = GRID()
+        R = abs(A)
+        w = v_abs(v)
+        out = wf_clauses(R, 'wf')
+        out.update({
+            'grid': grid_ok_fmt(R, g),
+            'nan': implies(w[0], R.has_nan),
+            'inf': implies(not w[0] and w[1], ite(w[2], R.has_neg_inf, R.has_pos_inf)),
+            'finite': implies(not w[0] and not w[1] and w[4] != 0, mem_fin(w[2], w[3], w[4], R, g)),
+            'zero': implies(not w[0] and not w[1] and w[4] == 0, mem_fin(w[2], w[3], w[4], R, g)),
+        })
+        return out
+
+
+class C14_pos_sound(Lemma):
+    params = {'A': 'AbstractFormat', 'v': 'Float'}
+    overrides = {'A.prec': 'int | PosInf', 'A.exp': 'int | NegInf',
+                 'A.pos_bound': 'RealFloat | PosInf', 'A.neg_bound': 'RealFloat | NegInf'}
+    properties = ['C14']
+    options = {'light_first': True, 'theory_light': True}
+
+    def pre(A, v):
+        g = GRID()
+        return {'wf': wf(A), 'grid': grid_ok_fmt(A, g) and g <= v._real._exp, 'mem': mem(v, A, g)}
+
+    def post(A, v):
+        g = GRID()
+        R = +A
+        w = v_pos(v)
+        out = wf_clauses(R, 'wf')
+        out.update({
+            'grid': grid_ok_fmt(R, g),
+            'mem': mem_val(w[0], w[1], w[2], w[3], w[4], R, g),
+        })
+        return out
+
+
+class C14_or_special(Lemma):
+    """union: wf is preserved; NaN / infinities / signed zeros of either operand are members"""
+    params = {'A': 'AbstractFormat', 'B': 'AbstractFormat', 'v': 'Float'}
+    overrides = {'A.prec': 'int | PosInf', 'A.exp': 'int | NegInf',
+                 'A.pos_bound': 'RealFloat | PosInf', 'A.neg_bound': 'RealFloat | NegInf',
+                 'B.prec': 'int | PosInf', 'B.exp': 'int | NegInf',
+                 'B.pos_bound': 'RealFloat | PosInf', 'B.neg_bound': 'RealFloat | NegInf'}
+    split = ['A.prec', 'A.exp', 'A.pos_bound', 'A.neg_bound']
+    properties = ['C14']
+    options = {'light_first': True, 'theory_light': True}
+
+    def pre(A, B, v):
+        return {'wfA': wf(A), 'wfB': wf(B), 'mem': mem_sp_v(v, A) or mem_sp_v(v, B)}
+
+    def post(A, B, v):
+        R = A | B
+        out = wf_clauses(R, 'wf')
+        out.update({'special': mem_sp_v(v, R)})
+        return out
+
+
+class C14_or_finite_left(Lemma):
+    """union: a finite nonzero member of the left operand is a member"""
+    params = {'A': 'AbstractFormat', 'B': 'AbstractFormat', 'v': 'Float'}
+    overrides = {'A.prec': 'int | PosInf', 'A.exp': 'int | NegInf',
+                 'A.pos_bound': 'RealFloat | PosInf', 'A.neg_bound': 'RealFloat | NegInf',
+                 'B.prec': 'int | PosInf', 'B.exp': 'int | NegInf',
+                 'B.pos_bound': 'RealFloat | PosInf', 'B.neg_bound': 'RealFloat | NegInf'}
+    split = ['A.prec', 'A.exp', 'A.pos_bound', 'A.neg_bound']
+    properties = ['C14']
+    options = {'light_first': True, 'theory_light': True}
+
+    def pre(A, B, v):
+        g = GRID()
+        out = {'wfA': wf(A), 'wfB': wf(B),
+               'grid': grid_ok_fmt(A, g) and grid_ok_fmt(B, g) and g <= v._real._exp}
+        out.update(mem_nz_clauses(v, A, g, 'mem'))
+        return out
+
+    def post(A, B, v):
+        g = GRID()
+        R = A | B
+        r = v._real
+        return {'grid': grid_ok_fmt(R, g), 'exp': exp_fits(r._exp, R), 'prec': prec_fits(r._c, R),
+                'le_pos': le_pos(r._s, r._exp, r._c, R, g), 'ge_neg': ge_neg(r._s, r._exp, r._c, R, g)}
+
+
+class C14_or_finite_right(Lemma):
+    """union: a finite nonzero member of the right operand is a member"""
+    params = {'A': 'AbstractFormat', 'B': 'AbstractFormat', 'v': 'Float'}
+    overrides = {'A.prec': 'int | PosInf', 'A.exp': 'int | NegInf',
+                 'A.pos_bound': 'RealFloat | PosInf', 'A.neg_bound': 'RealFloat | NegInf',
+                 'B.prec': 'int | PosInf', 'B.exp': 'int | NegInf',
+                 'B.pos_bound': 'RealFloat | PosInf', 'B.neg_bound': 'RealFloat | NegInf'}
+    split = ['A.prec', 'A.exp', 'A.pos_bound', 'A.neg_bound']
+    properties = ['C14']
+    options = {'light_first': True, 'theory_light': True}
+
+    def pre(A, B, v):
+        g = GRID()
+        out = {'wfA': wf(A), 'wfB': wf(B),
+               'grid': grid_ok_fmt(A, g) and grid_ok_fmt(B, g) and g <= v._real._exp}
+        out.update(mem_nz_clauses(v, B, g, 'mem'))
+        return out
+
+    def post(A, B, v):
+        g = GRID()
+        R = A | B
+        r = v._real
+        return {'grid': grid_ok_fmt(R, g), 'exp': exp_fits(r._exp, R), 'prec': prec_fits(r._c, R),
+                'le_pos': le_pos(r._s, r._exp, r._c, R, g), 'ge_neg': ge_neg(r._s, r._exp, r._c, R, g)}
+
+
+class C14_and_sound(Lemma):
+    """intersection: a value that is a member of both operands is a member (G2)"""
+    params = {'A': 'AbstractFormat', 'B': 'AbstractFormat', 'v': 'Float'}
+    overrides = {'A.prec': 'int | PosInf', 'A.exp': 'int | NegInf',
+                 'A.pos_bound': 'RealFloat | PosInf', 'A.neg_bound': 'RealFloat | NegInf',
+                 'B.prec': 'int | PosInf', 'B.exp': 'int | NegInf',
+                 'B.pos_bound': 'RealFloat | PosInf', 'B.neg_bound': 'RealFloat | NegInf'}
+    split = ['A.prec', 'A.exp', 'A.pos_bound', 'A.neg_bound']
+    properties = ['C14']
+    options = {'light_first': True, 'theory_light': True}
+
+    def pre(A, B, v):
+        g = GRID()
+        return {'wfA': wf(A), 'wfB': wf(B),
+                'grid': grid_ok_fmt(A, g) and grid_ok_fmt(B, g) and g <= v._real._exp,
+                'memA': mem(v, A, g), 'memB': mem(v, B, g)}
+
+    def post(A, B, v):
+        g = GRID()
+        R = A & B
+        r = v._real
+        out = wf_clauses(R, 'wf')
+        out.update({
+            'grid': grid_ok_fmt(R, g),
+            'special': mem_sp_v(v, R),
+            'exp': implies(nz(v), exp_fits(r._exp, R)), 'prec': implies(nz(v), prec_fits(r._c, R)),
+            'le_pos': implies(nz(v), le_pos(r._s, r._exp, r._c, R, g)),
+            'ge_neg': implies(nz(v), ge_neg(r._s, r._exp, r._c, R, g)),
+        })
+        return out
+
+
+class C14_le_sound(Lemma):
+    """
+    containment (G3): A <= B (AbstractFormat.__le__ / _is_contained_in returns True) implies every member
+    of A is a member of B.  Witness for the precision escape (A.prec > B.prec but A's range inside B's
+    subnormal region): either the given representation, or -- when c is exactly a power of two with one
+    bit too many -- the representation (1, exp + bl(c) - 1).
+    """
+    params = {'A': 'AbstractFormat', 'B': 'AbstractFormat', 'v': 'Float'}
+    overrides = {'A.prec': 'int | PosInf', 'A.exp': 'int | NegInf',
+                 'A.pos_bound': 'RealFloat | PosInf', 'A.neg_bound': 'RealFloat | NegInf',
+                 'B.prec': 'int | PosInf', 'B.exp': 'int | NegInf',
+                 'B.pos_bound': 'RealFloat | PosInf', 'B.neg_bound': 'RealFloat | NegInf'}
+    split = ['A.prec', 'A.exp', 'A.pos_bound', 'A.neg_bound']
+    properties = ['C14']
+    options = {'light_first': True, 'theory_light': True}
+
+    def pre(A, B, v):
+        g = GRID()
+        return {'wfA': wf(A), 'wfB': wf(B),
+                'grid': grid_ok_fmt(A, g) and grid_ok_fmt(B, g) and g <= v._real._exp,
+                'mem': mem(v, A, g), 'contained': A <= B}
+
+    def post(A, B, v):
+        g = GRID()
+        r = v._real
+        c = r._c
+        return {
+            'special': mem_sp_v(v, B),
+            'exp': implies(nz(v), exp_fits(r._exp, B)),
+            'prec': implies(nz(v), prec_fits(c, B) or (c == pow2(bl(c) - 1) and prec_fits(1, B))),
+            'le_pos': implies(nz(v), le_pos(r._s, r._exp, c, B, g)),
+            'ge_neg': implies(nz(v), ge_neg(r._s, r._exp, c, B, g)),
+        }
